@@ -29,6 +29,37 @@ PROPS = {
                 assumptions=[INTS, SORT, "A: wf-preservation of quantise / quantise_note_lengths / cutoff / merge / normalise_relative / concatenate at the wrapper level (validated by the bounded tier)",
                              "generators messages_abs/messages_rel are covered by the bounded tier only"],
                 note="same_view (content equality of the two views) is bounded, not proved"),
+    "C16": dict(level="other", bounded=True, technique="contract-based deductive verification of freshness/ownership postconditions of the copy routes + bounded independence histories",
+                explanation="U: Message.copy (fresh object, all fields equal), AbstractSequence.copy (fresh list of fresh, pairwise distinct messages with equal content), Sequence.copy (fresh wrapper, same freshness state, views copied, "
+                            "invariant holds for both, source untouched), for all inputs and all three freshness states. B: Bar/Track/Composition copies, split pieces, bar splitting with either setting, and independence under later operations on either side.",
+                assumptions=[INTS], note="Bar/Track/Composition.copy, split and sequences_split_bars freshness are bounded only so far"),
+    "C01": dict(level="other", bounded=True, technique="bounded enumeration with an independent note/bar-grid oracle (deductive part so far: binary_insort, used by detokenise)",
+                explanation="B: generated valid pieces (V_strict grid) x random configurations, tokenise -> encode -> decode -> detokenise compared with the piece by an independent oracle. U so far only for binary_insort (ordered insertion used by detokenise).",
+                assumptions=[INTS, STR], note="tokenise/detokenise themselves are not yet under contract; known findings D15, D18"),
+    "C02": dict(level="other", bounded=True, technique="complete enumeration of the vocabulary per configuration over a configuration lattice + independent construction of the expected vocabulary",
+                explanation="B (complete per configuration, as the property itself asks for the vocabulary side): ids, size, inverse maps, encode/decode on every member, detokenise accepts every member; tokenise output membership on generated pieces.",
+                assumptions=[STR], note="not yet under contract; known finding D6"),
+    "C03": dict(level="other", bounded=True, technique="bounded enumeration: all 2^(n-1) groupings of consecutive bars into calls vs whole-piece tokenisation",
+                explanation="B: every grouping of 1-5 bars into calls for generated pieces and configurations, plus an exhaustive small family for the carried running values.", assumptions=[STR], note="not yet under contract; known finding D18"),
+    "C05": dict(level="other", bounded=True, technique="contract-based deductive verification of find_minimal_distance (the choice function of quantise) + bounded enumeration with an independent per-(channel,pitch) oracle",
+                explanation="U: find_minimal_distance returns an index of minimal distance, earliest on ties, for all integer lists. B: grid, displacement, pairing, non-note events, survival rule on small-scope enumeration and seeded random inputs.",
+                assumptions=[INTS], note="quantise itself is bounded only so far"),
+    "C06": dict(level="other", bounded=True, technique="contract-based deductive verification of find_minimal_distance + bounded enumeration with an independent oracle",
+                explanation="U: find_minimal_distance (closest allowed value, earliest on ties). B: allowed durations, fixed onsets, no overlap, no extension, closest fit, removal only when nothing fits.", assumptions=[INTS], note="quantise_note_lengths itself is bounded only so far"),
+    "C07": dict(level="other", bounded=True, technique="exhaustive small-scope enumeration of event strings with an independent open-note automaton", explanation="B: all event strings up to a small length (incl. ill-formed) + seeded random strings.", assumptions=[], note="not yet under contract"),
+    "C08": dict(level="other", bounded=True, technique="bounded enumeration with an independent piano-roll oracle", explanation="B: capacities exact, duration/sound/events conserved, pieces silent at their end, source unchanged, no shared objects.", assumptions=[], note="not yet under contract"),
+    "C09": dict(level="other", bounded=True, technique="bounded seeded exploration with an independent bar-grid and piano-roll oracle", explanation="B: bar counts, bar lengths, carried signature/key, coverage, sounding set, inputs unchanged.", assumptions=[FLOAT], note="not yet under contract"),
+    "C10": dict(level="other", bounded=True, technique="contract-based deductive verification of RelativeSequence.pad (used for the exact bar length) + bounded grid over (sequence, signature, key)",
+                explanation="U: pad makes the duration max(old, n) and touches no event. B: Bar construction over a grid of durations / signatures / signature content, exact length in rationals, copy.", assumptions=[FLOAT, INTS], note="Bar.__init__ itself is bounded only so far"),
+    "C11": dict(level="other", bounded=True, technique="bounded operation histories with type checks (deductive tag layer not built yet; value-level contracts of pad / conversions assume integer ticks)",
+                explanation="B: seeded histories over 15 operations on 1-2 tracks of unequal length; every time value of both views type-checked after every step; token rendering checked by a regular expression.", assumptions=[], note="tag layer not built yet"),
+    "C12": dict(level="other", bounded=True, technique="bounded round trips through a real temporary MIDI file (mido is the assumed codec)", explanation="B: save/load round trips of generated sequence lists; notes and signatures in force compared by an independent oracle.",
+                assumptions=["A: mido encodes and decodes the track messages faithfully"], note="not yet under contract; known finding D16"),
+    "C13": dict(level="other", bounded=True, technique="bounded differential test against exact rational positions (fractions.Fraction) on files written directly with mido",
+                explanation="B: 13 resolutions x irregular delta patterns x track groupings / meta selections / meta targets.", assumptions=["A: mido"], note="not yet under contract; known finding D19"),
+    "C15": dict(level="other", bounded=True, technique="bounded enumeration over families of sequences and all merge orders with an independent piano-roll oracle", explanation="B: sounding-set union, fusion, signatures, duration, order independence.", assumptions=[SORT], note="not yet under contract"),
+    "C17": dict(level="other", bounded=True, technique="bounded generated pairs: identical / re-ordered / re-represented / every single-attribute perturbation x 16 flag combinations", explanation="B: as described.", assumptions=[], note="not yet under contract"),
+    "C19": dict(level="other", bounded=True, technique="bounded random vocabulary streams and tokenise output; note onsets recovered by detokenising every prefix", explanation="B: as described, both imputation settings, non-default ppqn.", assumptions=[STR], note="not yet under contract"),
 }
 
 NOT_APPLICABLE = {}
